@@ -47,6 +47,9 @@ impl Sink {
     pub fn line(&mut self, l: &str) {
         if let Some(s) = self.script.as_mut() {
             writeln!(s, "{l}").unwrap();
+            // on disk before the line runs: if the crate brings the process down, the script file
+            // ends with the case that did it
+            s.flush().unwrap();
         }
         let o = self.ex.exec_line(l);
         if let Some(o) = o {
